@@ -328,6 +328,71 @@ def forwarding(ctx):
         ctx.add(ObResult("C18/forwarding/keyword-only-construction", "unknown", detail="positional arguments in SamplerConfig(...)")).replayer = "c18_config"
 
 
+def termination(ctx):
+    """Inner loops of a run terminate (part of 'runs to completion'): each `while` loop below has a variant checked on the real
+    source — an integer that is non-negative whenever the body runs and decreases on every path back to the head, or a gap that is
+    at least halved while it is still >= a positive tolerance (Lean: Term.lean).  The contracts are those of the owning property
+    (C05, C06, C07, C15, C19, C20), re-run here with the variant switched on.  The outer annealing loop (`while self._not_termination()`)
+    has no variant: whether beta reaches 1 depends on the likelihood (bounded stand-in below)."""
+    from . import lean as _lean, c05
+    _lean.require(ctx, "Term.lean", ["halving_terminates", "int_variant_terminates"])
+    n0 = len(ctx.results)
+    c05.o1(ctx)
+    c05.o2(ctx, False)
+    c05.o2(ctx, True)
+    from . import c06, c07, c15, c19, c20
+    old = getattr(ctx, "replayer_override", None)
+    ctx.replayer_override = "c18_run"
+    ctx.parallel([lambda c: c20.trim(c), lambda c: c06.systematic(c, "in-tolerance"), lambda c: c06.systematic(c, "renormalised"),
+                  lambda c: c19.dof_structure(c), lambda c: c07.mcmc_run(c, "RWMRunner", False), lambda c: c07.mcmc_run(c, "TPCNRunner", True),
+                  lambda c: adaptive_steps_cap(c), lambda c: c15.hier_fit(c, True, True), lambda c: c15.hier_fit(c, False, False)])
+    ctx.replayer_override = old
+    for r in ctx.results[n0:]:
+        r.replayer = "c18_run"
+
+
+def adaptive_steps_cap(ctx):
+    """Postcondition of BaseMCMCRunner._calculate_adaptive_steps used by the MCMC loop's variant: the step count it returns never
+    exceeds n_max * n_dim.  Slice VC on its last statements (`n_steps_max = self.n_max * self.n_dim; return int(min(x, n_steps_max))`)."""
+    from pyvc.state import State
+    from pyvc.values import engine_errors
+    MC = "tempest.mcmc"
+    f = eff.qualname_index(ctx.mods).get((MC, "BaseMCMCRunner._calculate_adaptive_steps"))
+    ctx.fuc(MC, "BaseMCMCRunner._calculate_adaptive_steps")
+    oid = "C18/mcmc.BaseMCMCRunner._calculate_adaptive_steps/result-at-most-n_max-times-n_dim"
+    if f is None or not isinstance(f.body[-1], ast.Return):
+        ctx.add(ObResult(oid, "unknown", detail="function or final return not found")).replayer = "c18_run"
+        return
+    # the statements from the assignment of n_steps_max to the return
+    k0 = next((k for k, s_ in enumerate(f.body) if isinstance(s_, ast.Assign) and any(isinstance(t, ast.Name) and t.id == "n_steps_max" for t in s_.targets)), None)
+    if k0 is None:
+        ctx.add(ObResult(oid, "unknown", detail="no assignment to n_steps_max")).replayer = "c18_run"
+        return
+    I = ctx.interp()
+    I.cur.append((MC, "BaseMCMCRunner._calculate_adaptive_steps"))
+    st = State()
+    n_max, n_dim = fresh_scalar("int", "n_max"), fresh_scalar("int", "n_dim")
+    st.assume(z3.And(n_max >= 1, n_dim >= 1))
+    runner = st.new_obj("BaseMCMCRunner", __module__=MC, n_max=n_max, n_dim=n_dim)
+    free = sorted({n.id for s_ in f.body[k0:] for n in ast.walk(s_) if isinstance(n, ast.Name) and isinstance(n.ctx, ast.Load)}
+                  - {"self", "int", "min", "max", "n_steps_max", "np"})
+    st.env = {"self": runner}
+    for nm in free:
+        st.env[nm] = fresh_scalar("real", nm)        # whatever was computed before: any real
+    try:
+        outs = [o for o in I.exec_block(f.body[k0:], st, MC) if o.kind == "return"]
+    except engine_errors() as e:
+        ctx.add(ObResult(oid, "unknown", detail=f"outside the supported subset: {type(e).__name__}: {str(e)[:200]}")).replayer = "c18_run"
+        return
+    if not outs:
+        ctx.add(ObResult(oid, "unknown", detail="no returning path")).replayer = "c18_run"
+        return
+    for j, o in enumerate(outs):
+        r = ctx.lemma(f"mcmc.BaseMCMCRunner._calculate_adaptive_steps/result-at-most-n_max-times-n_dim#{j}", list(o.state.pc),
+                      to_z3(o.value, "int") <= n_max * n_dim, kind="vc")
+        r.replayer = "c18_run"
+
+
 def bounded_runs(ctx):
     """'Every combination of valid option values runs to completion': not a contract on one call (termination, numerical
     exceptions).  Bounded stand-in named by the property's own quantifier: a pairwise (quick) / 3-wise (thorough) covering array of
@@ -354,6 +419,7 @@ def run(ctx):
     forwarding(ctx)
     from . import c08
     c08.picklable_core(ctx, replayer="c18_run")
+    termination(ctx)
     bounded_runs(ctx)
     # O4: inter-component preconditions along a run, for every valid configuration (cluster_every >= 1, clustering on/off, both
     # resamplers): the contracts proved under C14 are re-established here so that a constructor/Trainer pair that disagrees on the
@@ -375,7 +441,7 @@ def run(ctx):
     if refl:
         ctx.notes.append(f"reflection sites (limit the call-graph argument): {refl}")
     ctx.undecided_clauses.append("'every combination of valid option values runs to completion without raising': termination of the "
-                                 "adaptive loops and absence of numerical exceptions inside numpy/scipy are not decidable by contracts "
-                                 "(partial correctness only); the inter-component preconditions along the run are the obligations of "
+                                 "*outer* annealing loop (beta reaching 1) and absence of numerical exceptions inside numpy/scipy are not "
+                                 "decidable by contracts (the inner loops have checked variants; bounded covering-array runs stand in); the inter-component preconditions along the run are the obligations of "
                                  "C05 (iter not None, beta range), C06 (p normalised, index ranges), C08 (frozen config, resume), "
                                  "C13 (pool has a map), C14 (clusterer fitted before predict, labels index existing modes)")
